@@ -424,6 +424,8 @@ impl<'a> Compiler<'a> {
 
         let (span, predicate) = node.take();
         let pre_pending = self.pending_fallibilities.len();
+        // checked in the state the predicate is evaluated in, not the one it leaves behind
+        let original_state = state.clone();
 
         self.consuming_fallibility(|c| {
             let exprs = match predicate {
@@ -439,7 +441,7 @@ impl<'a> Compiler<'a> {
                 .map(CompilerError::to_diagnostic);
             Some(Predicate::new(
                 Node::new(span, exprs),
-                state,
+                &original_state,
                 predicate_fallibility,
             ))
         })
@@ -469,7 +471,9 @@ impl<'a> Compiler<'a> {
         let rhs_span = rhs.span();
         let rhs = Node::new(rhs_span, self.compile_expr(*rhs, state)?);
 
-        let op = match Op::new(lhs, opcode, rhs, state) {
+        // the operands are type-checked in the state they are evaluated in, not in the state
+        // they leave behind (an operand may reassign a variable it reads)
+        let op = match Op::new(lhs, opcode, rhs, &original_state) {
             Ok(op) => op,
             Err(err) => {
                 // The op itself failed (e.g. `1 ?? x` is rejected as
@@ -886,9 +890,11 @@ impl<'a> Compiler<'a> {
     fn compile_not(&mut self, node: Node<ast::Not>, state: &mut TypeState) -> Option<Not> {
         let (not, expr) = node.into_inner().take();
 
+        // checked in the state the operand is evaluated in, not the one it leaves behind
+        let original_state = state.clone();
         let node = Node::new(expr.span(), self.compile_expr(*expr, state)?);
 
-        Not::new(node, not.span(), state)
+        Not::new(node, not.span(), &original_state)
             .map_err(|err| self.diagnostics.push(Box::new(err)))
             .ok()
     }
